@@ -199,7 +199,7 @@ def _colliders(rng, idx):
             viol.append({"key": dict(key0, query="gjk", kind="exception-in-one-variant"), "err": None, "msg": "gjk: base %r variant %r" % (gb if exc(gb) else "ok", gv if exc(gv) else "ok")})
         asp = O.aspect_bucket(max(O.aspect(sA), O.aspect(sB)))
         zero_one = (not exc(base["original"]) and not exc(var["original"]) and (base["original"] == 0.0) != (var["original"] == 0.0))
-        scalar("original.distance", base["original"], var["original"], 1e-3, {"max_aspect": asp, "zero_in_one_variant": bool(zero_one)})
+        scalar("original.distance", base["original"], var["original"], 1e-3, {"max_aspect": asp, "scene_aspect": O.aspect_bucket(O.scene_aspect(sA, sB)), "zero_in_one_variant": bool(zero_one)})
         scalar("nesterov.distance", base["nesterov"], var["nesterov"], 1e-3)
         if "primitives" in base and "primitives" in var:
             scalar("primitives.distance", base["primitives"], var["primitives"], 1e-3)
